@@ -185,7 +185,8 @@ def load_findings():
             if rec.get('status') == 'open':
                 ds = None
                 if rec.get('digests'):
-                    ds = set(open(os.path.join(ROOT, rec['digests'])).read().split())
+                    dpath = os.path.join(ROOT, rec['digests'])
+                    ds = set(open(dpath).read().split()) if os.path.exists(dpath) else set()
                 rec['_digests'] = ds
                 rec['_sig'] = re.compile(rec['signature']) if rec.get('signature_is_regex') else None
                 rec['_pat'] = re.compile(rec['input_pattern'], re.S) if rec.get('input_pattern') else None
